@@ -422,10 +422,12 @@ static void cfg_prepare(cfgstate_t *cs)
     cs->ready = 1;
     /* dry run in a child: a crash in a clean handshake must not take the shard down */
     char spec[200]; snprintf(spec, sizeof spec, "S/%s/%04x/%d/%s/setup//", mx_vername[cs->c.ver], cs->c.suite, cs->c.pmtu, kindname[cs->c.kind]);
-    int sv = vf_shard; vf_shard = -1;
-    int rc = vf_fork_case(cfg_probe, cs, "c16-setup", spec, 120);
-    vf_shard = sv;
-    if (rc) return;
+    if (!vf_case) {
+        int sv = vf_shard; vf_shard = -1;
+        int rc = vf_fork_case(cfg_probe, cs, "c16-setup", spec, 120);
+        vf_shard = sv;
+        if (rc) return;
+    }
     cfg_prepare_body(cs);
 }
 static void cfg_prepare_body(cfgstate_t *cs)
@@ -496,7 +498,9 @@ static void batch_flush(void)
             cfg_activate(B.cs);
             char spec[600]; cfg_t *c = &B.cs->c;
             B.only = -1;
-            int rc = (B.n == 1 || vf_case) ? 1 : batch_run_buffered();
+            /* --case: run in-process so that a sanitizer report reaches the shard's stderr and is keyed by the driver */
+            if (vf_case) { for (int i = 0; i < B.n; i++) { B.only = i; batch_child(NULL); } B.n = 0; return; }
+            int rc = B.n == 1 ? 1 : batch_run_buffered();
             if (rc) for (int i = 0; i < B.n; i++) {
                 B.only = i;
                 snprintf(spec, sizeof spec, "S/%s/%04x/%d/%s/%s/%s/%s", mx_vername[c->ver], c->suite, c->pmtu, kindname[c->kind], B.k[i].cls, B.k[i].fates, B.k[i].spur);
@@ -678,6 +682,7 @@ static void replay_scenario(void *argp)
             const char *what = cp->type == 23 ? "app" : cp->type == 22 ? (cp->epoch ? "finished" : "handshake") : cp->type == 20 ? "ccs" : "other";
             snprintf(G.keytail, sizeof G.keytail, "%s:%s:%s:%s", mx_vername[c->ver], famname(c->suite), kindname[c->kind], modename[mode]);
             if ((no % 2111) == 7) vf_sample("replay %s: %s record (type %d epoch %d seq %llu) of %s at position %d/%d", G.spec, what, cp->type, cp->epoch, cp->seq, cp->dir ? "server" : "client", pos, K);
+            if (vf_case) { replay_child(&rc); vf_flush(); fflush(NULL); _exit(0); }
             vf_fork_case(replay_child, &rc, "c16-replay", G.spec, 60);
         }
     }
@@ -691,6 +696,7 @@ static void replay_scenario(void *argp)
             else if (!vf_mine(no)) continue;
             snprintf(G.keytail, sizeof G.keytail, "%s:%s:%s:%s", mx_vername[c->ver], famname(c->suite), kindname[c->kind], modename[4]);
             if (g == 33 && v == 0) vf_sample("replay %s: %d application datagrams lost in a row, then the datagram after the gap replayed immediately", G.spec, g);
+            if (vf_case) { gap_child(&rc); vf_flush(); fflush(NULL); _exit(0); }
             vf_fork_case(gap_child, &rc, "c16-replay", G.spec, 60);
         }
     }
@@ -707,6 +713,7 @@ static void run_replays(cfgstate_t *cs, int est, int K, int pairs, const char *o
     scn_arg a = { cs, est, K, pairs, onlyspec, g_scenario++, g_gaps };
     char spec[300]; cfg_t *c = &cs->c;
     snprintf(spec, sizeof spec, "S/%s/%04x/%d/%s/replay-establishment-%s/%s/", mx_vername[c->ver], c->suite, c->pmtu, kindname[c->kind], estname[est], est == 2 ? "(last handshake datagram dropped once)" : "");
+    if (vf_case) { replay_scenario(&a); return; }
     vf_fork_case(replay_scenario, &a, "c16-replay-establishment", spec, 3000);
 }
 
